@@ -16,16 +16,16 @@ LEVEL_TEXT = ('partial. Lean 4 theorems (exact arithmetic): rescaling by s divid
               'interpolation grid is uniform with spacing 1/s and maps centre to centre; at s = 1 every output sample is interpolated at its own '
               'integer coordinate, so the operation is the identity for any interpolator reproducing samples there; a constant aperture keeps its '
               'power up to the one-sample rim (n0 n1 a^2 <= P\' <= (n0+1/s)(n1+1/s) a^2) because the amplitude is divided by s; on the regenerated grid (order 0, mode constant) every resampled mask layer '
-              'takes only the values 0/1, the number of layers is kept and, at samples whose coordinate lies inside the input array, the union of disjoint segments is the resampled union (resampled_layers_binary_count_union); disjoint segments stay disjoint on the whole output grid (segments_stay_disjoint_on_grid), also after the post-mask factor of util.rescale (segments_stay_disjoint_with_postmask), and on the rim beyond the first/last input sample every segment is zero (a border-filling mask loses its trailing rim: all-ones 5x5 at s = 2 keeps 81 of 100); a plane rescaled by 1 keeps pixel scale, factors, shape and samples every array at its own integer coordinates (plane_rescale_one_is_identity); s then 1/s returns pixel scale and (for integer n*s) shape; the grid of util.rescale is REGENERATED from the source (each axis centred and sized with its own lengths); the original is untouched (regenerated effect table). Compared with the code on every case: shapes, '
+              'takes only the values 0/1, the number of layers is kept and, at samples whose coordinate lies inside the input array, the union of disjoint segments is the resampled union (resampled_layers_binary_count_union); disjoint segments stay disjoint on the whole output grid (segments_stay_disjoint_on_grid), also after the post-mask factor of util.rescale (segments_stay_disjoint_with_postmask), and on the rim beyond the first/last input sample every segment is zero (a border-filling mask loses its trailing rim: all-ones 5x5 at s = 2 keeps 81 of 100); a plane rescaled by 1 keeps pixel scale, factors, shape and samples every array at its own integer coordinates (plane_rescale_one_is_identity); s then 1/s returns pixel scale and (for integer n*s) shape; the grid of util.rescale is REGENERATED from the source (each axis centred and sized with its own lengths); the original is untouched (regenerated effect table); the explicit shape= argument of util.rescale (scalar and pair branches REGENERATED: Gen.rescaleCeilArgScalar/rescaleCeilArgPair) gives ceil(m*s) samples per axis from its own entry, equals the default for the own shape of the image (rescale_explicit_shape) and changes the field of view only — same coordinates shifted by c samples when the sizes differ by 2c, m input samples covered to within one output sample (explicit_shape_same_sampling); complex images are interpolated part by part on the same grid under the support of img != 0 and agree with the real path when the imaginary part vanishes (complex_rescale_by_parts, over the regenerated Gen.rescaleComplexParts). Compared with the code on every case: shapes, '
               'per-axis pixel scale, the amplitude factor 1/s on top of util.rescale, the whole interpolation grid, refusals. Power/image/amplitude/OPD '
               'preservation "to interpolation accuracy" is measured, not proved.')
-LEVEL_NOTE = ('partial: bookkeeping theorems over a hand model whose grid (shape argument, row/column coordinates, coordinate order) is regenerated from util.py (Gen/RescaleGrid.lean); the wiring of Plane.rescale/resample (copy, ndim guards, /scale, interpolation options, binarise/cast/slice, per-axis pixel scale, guards) is regenerated too (Gen/PlaneRescale.lean, plane_rescale_wiring); cubic-spline interpolation accuracy (scipy map_coordinates) is an '
+LEVEL_NOTE = ('partial: bookkeeping theorems over a hand model whose grid (shape argument, row/column coordinates, coordinate order) is regenerated from util.py (Gen/RescaleGrid.lean, now including the shape= scalar/pair branches, the complex real/imag branch and the interpolation keyword options, exercised by a direct util.rescale stream: explicit shapes compared with the model op rs.coords_arg, complex results with an independent scipy part-by-part reference); the wiring of Plane.rescale/resample (copy, ndim guards, /scale, interpolation options, binarise/cast/slice, per-axis pixel scale, guards) is regenerated too (Gen/PlaneRescale.lean, plane_rescale_wiring); cubic-spline interpolation accuracy (scipy map_coordinates) is an '
               'external analytic fact — unproven clause, measured on smooth apertures; the sample count follows float64 semantics of ceil(n*s) at the '
               'float seam (ASSUMPTIONS); segment coverage is oracle-only.')
 TECHNIQUE = 'Lean 4 proof (ordered-field algebra with Int.ceil) over a hand model + differential correspondence at exact rationals; measured interpolation clause'
 GEN = ['Effects', 'Extent', 'FieldDispatch', 'FieldIdx', 'FieldMerge', 'PlaneRescale', 'RescaleGrid']     # every Gen module the model, lemmas, theorems and driver ops import (transitively)
 OPS = ['C17']
-RULE = ('cases: planes with smooth (super-Gaussian edge) amplitude and low-order polynomial OPD on grids 24..56 (even/odd, non-square), '
+RULE = ('histories (8 per quick run, 60 per search): the plane is first rescaled, in the same process, by ANOTHER scale factor with the same output shape (result discarded), then the judged rescale/resample runs and is held to every clause; direct util.rescale calls (30 per quick run) on 12..32 grids with shape= absent / scalar / pair (half to 7 more than the image), real or complex (amplitude times exp(i phase)) smooth images, order 1/3, mode nearest/constant; cases: planes with smooth (super-Gaussian edge) amplitude and low-order polynomial OPD on grids 24..56 (even/odd, non-square), '
         'monolithic or 2..3 segment masks, float or integer mask dtype, uniform / per-axis (px, 1.5 px) / absent pixel scale, scalar '
         'amplitude or OPD, planes already carrying recorded tilt, already rescaled planes (rescale of a rescale), dyadic scale factors '
         '0.5..4 incl. non-integers and 1, resample to target pixel scales and resample refusals (no / non-uniform pixel scale); after '
@@ -47,8 +47,9 @@ UNPROVEN = ['transmitted power sum|amplitude|^2 is preserved to interpolation ac
             'segment masks stay non-empty and cover the aperture support: oracle only; disjointness is proved on the regenerated grid (segments_stay_disjoint_on_grid) under the nearest-sample contract of map_coordinates(order=0, mode=constant), which is trusted',
             'hard-edged and border-filling apertures are outside the quantifier of the measured clauses: generated with loose tolerances, bookkeeping and the exact constant-aperture power bound are checked on them']
 ASSUMPTIONS = ['apertures and OPDs are smooth on the sampling grid (property quantifier)',
-               'util.rescale is modelled and exercised as Plane.rescale calls it (unitary=False, shape=None, mask=None, real input); its default '
-               'unitary=True renormalisation, the shape=/mask= arguments and complex input are not modelled here (unitary=True is exercised by C19 pixelate)',
+               'util.rescale is modelled and exercised as Plane.rescale calls it (unitary=False, mask=None) and, since wave 12, directly with shape= (scalar / pair) and complex input '
+               '(orders 1 and 3, modes nearest and constant); its default unitary=True renormalisation and the mask= argument are not modelled here (unitary=True is exercised by C19 pixelate); '
+               'non-integer or negative shape= entries are not generated',
                'mask support does not touch the array border: the half-pixel rim beyond the first/last sample centre is outside the array for the mask\'s '
                'mode=\'constant\' (deliberate: outside the array there is no aperture), so an aperture filling the array loses about 3 % of its mask samples at '
                's = 2 (all-ones 5x5: 81 of 100) and a segment living ONLY on border pixels can come back empty (Plane.rescale then raises IndexError in '
@@ -106,14 +107,130 @@ def generate(rng, tier):
             c['kind'] = 'refuse'; c['pxmode'] = ['none', 'peraxis'][int(rng.integers(0, 2))]; c['new_px'] = c['px'] / c['scale']
             c['propagate'] = False; c['twice'] = False; c['pre_tilt'] = False
         out.append(c)
+    # direct util.rescale calls: explicit `shape=` (scalar / pair) and complex images (appended last: earlier streams keep their draws)
+    for k in range({'quick': 30, 'thorough': 240, 'search': 80}[tier]): out.append(gen_util(rng, k))
+    # histories: the SAME process first rescales the plane by another scale factor that gives the same output shape (result discarded), then
+    # performs the judged call — a result must depend on the current arguments only (anything memoised on shapes alone would go stale)
+    for k in range({'quick': 8, 'thorough': 80, 'search': 60}[tier]): out.append(gen_warm(rng, k))
     return out
 
-def signature(c): return (f"{c['kind']} {c['shape']} seg={c['segments']} s={c['scale']} px={c['pxmode']} int={c['int_mask']} twice={c['twice']} "
+def gen_warm(rng, k):
+    n0 = int(rng.integers(24, 49)); n1 = n0 if k % 2 == 0 else int(rng.integers(24, 49))
+    sc = float(rng.choice([0.5, 0.75, 1.25, 1.5, 2.0, 0.7, 1.1, 1.3]))
+    S0, S1 = math.ceil(n0 * sc), math.ceil(n1 * sc)
+    lo, hi = max((S0 - 1) / n0, (S1 - 1) / n1), min(S0 / n0, S1 / n1)      # scales with the same output shape: (lo, hi], contains sc
+    cand = [lo + f * (hi - lo) for f in (0.15, 0.5, 0.85, 1.0)]
+    cand = [w for w in cand if math.ceil(n0 * w) == S0 and math.ceil(n1 * w) == S1 and abs(w - sc) > 0.1 * (hi - lo)]
+    warm = float(max(cand, key=lambda w: abs(w - sc))) if cand else None
+    c = {'kind': 'rescale' if k % 3 else 'resample', 'shape': [n0, n1], 'segments': 1 if k % 4 else 2, 'scale': sc, 'px': 1e-3, 'pxmode': 'uniform',
+         'hseed': int(rng.integers(0, 2**31)), 'amp_scalar': False, 'opd_scalar': False, 'pre_tilt': False, 'int_mask': False, 'twice': False,
+         'propagate': bool(k % 2), 'aperture': 'smooth', 'warm': warm}
+    if c['kind'] == 'resample': c['new_px'] = c['px'] / sc
+    return c
+
+def gen_util(rng, k):
+    n0 = int(rng.integers(12, 33)); n1 = n0 if rng.integers(0, 3) == 0 else int(rng.integers(12, 33))
+    sc = float(SCALES[int(rng.integers(0, len(SCALES)))]) if k % 5 else float(DECIMAL_SCALES[int(rng.integers(0, len(DECIMAL_SCALES)))])
+    form = ['scalar', 'pair', 'default'][k % 3]
+    if form == 'scalar': arg = [int(rng.integers(max(4, min(n0, n1) // 2), max(n0, n1) + 7))]
+    elif form == 'pair': arg = [int(rng.integers(max(4, n0 // 2), n0 + 7)), int(rng.integers(max(4, n1 // 2), n1 + 7))]
+    else: arg = None
+    return {'kind': 'util', 'shape': [n0, n1], 'scale': sc, 'arg': arg, 'complex': bool(form == 'default' or rng.integers(0, 2)),
+            'order': int(rng.choice([1, 3])), 'mode': str(rng.choice(['nearest', 'constant'])), 'hseed': int(rng.integers(0, 2**31)),
+            'segments': 1, 'pxmode': 'uniform', 'px': 1e-3, 'int_mask': False, 'twice': False, 'amp_scalar': False, 'opd_scalar': False,
+            'pre_tilt': False, 'propagate': False, 'aperture': 'smooth'}
+
+def _util_img(c):
+    n0, n1 = c['shape']
+    yy, xx = np.mgrid[0:n0, 0:n1]
+    amp, opd = _analytic(c, yy.astype(float), xx.astype(float))
+    amp[amp < 1e-6] = 0
+    return amp * np.exp(1j * opd / 5e-8) if c['complex'] else amp
+
+def _impl_util(c, lentil):
+    from scipy.ndimage import map_coordinates
+    img = _util_img(c); img.flags.writeable = False
+    snap = img.tobytes()
+    n0, n1 = c['shape']; s = c['scale']
+    arg = None if c['arg'] is None else (c['arg'][0] if len(c['arg']) == 1 else tuple(c['arg']))
+    try:
+        out = lentil.rescale(img, s, shape=arg, order=c['order'], mode=c['mode'], unitary=False)
+        dflt = lentil.rescale(img, s, order=c['order'], mode=c['mode'], unitary=False)
+        ry = np.repeat(np.arange(n0, dtype=float)[:, None], n1, axis=1); rx = np.repeat(np.arange(n1, dtype=float)[None, :], n0, axis=0)
+        gy = lentil.rescale(ry, s, shape=arg, mask=np.ones_like(ry), order=1, mode='nearest', unitary=False)
+        gx = lentil.rescale(rx, s, shape=arg, mask=np.ones_like(rx), order=1, mode='nearest', unitary=False)
+    except Exception as e:
+        return {'exc': type(e).__name__, 'msg': str(e)[:160], 'untouched': img.tobytes() == snap}
+    S0, S1 = out.shape
+    # independent reference: each part interpolated by scipy on the documented grid, times the interpolated support of img != 0
+    yi = (np.arange(S0) - S0 / 2) / s + n0 / 2; xi = (np.arange(S1) - S1 / 2) / s + n1 / 2
+    YI, XI = np.meshgrid(yi, xi, indexing='ij')
+    M = map_coordinates((img != 0).astype(float), [YI, XI], order=1, mode='nearest'); M[M < np.finfo(float).eps] = 0
+    mc = lambda a: map_coordinates(np.ascontiguousarray(a), [YI, XI], order=c['order'], mode=c['mode'])
+    ref = (mc(img.real) + 1j * mc(img.imag)) * M if c['complex'] else mc(img) * M
+    res = {'shape': [int(S0), int(S1)], 'complex_out': bool(np.iscomplexobj(out)), 'dtype': str(out.dtype), 'ref_err': float(np.max(np.abs(out - ref))) if out.size else 0.0,
+           'grid_y': [float(v) for v in gy[:, 0]], 'grid_x': [float(v) for v in gx[0, :]], 'grid_shape': [int(gy.shape[0]), int(gx.shape[1])],
+           'dflt_shape': [int(v) for v in dflt.shape], 'untouched': img.tobytes() == snap, 'peak': float(np.max(np.abs(out))) if out.size else 0.0}
+    d0, d1 = S0 - dflt.shape[0], S1 - dflt.shape[1]
+    if d0 % 2 == 0 and d1 % 2 == 0:
+        # same parity: the explicit-shape result must be the centre crop / zero-free pad region of the default result
+        def ov(S, D): c_ = (S - D) // 2; return (slice(max(c_, 0), min(S, D + c_)), slice(max(-c_, 0), max(-c_, 0) + min(S, D + c_) - max(c_, 0)))
+        a0, b0 = ov(S0, dflt.shape[0]); a1, b1 = ov(S1, dflt.shape[1])
+        res['crop_err'] = float(np.max(np.abs(out[a0, a1] - dflt[b0, b1])))
+    return res
+
+def _util_prod(c):
+    s = c['scale']; a = c['arg']
+    m = c['shape'] if a is None else ([a[0], a[0]] if len(a) == 1 else a)
+    return m, [m[0] * s, m[1] * s]
+
+def _requests_util(c, io):
+    m, prod = _util_prod(c)
+    base = {'shape': c['shape'], 'scale': _rat(c['scale']), 'prod': [_rat(prod[0]), _rat(prod[1])]}
+    return [{'op': 'rs.coords', **base} if c['arg'] is None else {'op': 'rs.coords_arg', 'arg': c['arg'], **base}]
+
+def _compare_util(c, io, mo):
+    if 'exc' in io: return f"util.rescale raised {io['exc']}: {io['msg']}"
+    m = mo[0]
+    if not m.get('ok'): return f"model refused {m.get('err')}"
+    if io['shape'] != m['shape']: return f"shape: implementation {io['shape']}, model {m['shape']} (shape={c['arg']})"
+    mm, prod = _util_prod(c)
+    if all(math.ceil(p) == math.ceil(k * Fr(c['scale'])) for p, k in zip(prod, mm)) and io['shape'] != m['exact_shape']:
+        return f"shape: implementation {io['shape']}, regenerated shape branch {m['exact_shape']} (shape={c['arg']})"
+    if io['grid_shape'] != m['shape']: return f"grid shape {io['grid_shape']} vs model {m['shape']}"
+    n0, n1 = c['shape']
+    for name, got, want, n in (('row', io['grid_y'], m['y'], n0), ('column', io['grid_x'], m['x'], n1)):
+        if len(got) != len(want): return f'{name} grid length {len(got)} vs {len(want)}'
+        for k, (g, wq) in enumerate(zip(got, want)):
+            wv = Fr(wq[0], wq[1])
+            if 0 <= wv <= n - 1 and abs(g - float(wv)) > 1e-9 * (1 + n): return f"{name} coordinate of output sample {k}: implementation {g!r}, model {float(wv)!r} (shape={c['arg']})"
+    return None
+
+def _oracle_util(c, io):
+    if 'exc' in io: return f"util.rescale(shape={c['arg']}, complex={c['complex']}) raised {io['exc']}: {io['msg']}"
+    mm, prod = _util_prod(c)
+    want = [math.ceil(prod[0]), math.ceil(prod[1])]
+    if io['shape'] != want: return f"shape {io['shape']} for shape={c['arg']}, expected ceil(m*s) = {want}"
+    if io['complex_out'] != c['complex']: return f"complex input {c['complex']} gave dtype {io['dtype']}"
+    if not io['untouched']: return 'util.rescale modified its input image'
+    if io['ref_err'] > 1e-12 * (1 + io['peak']): return (f"result differs from the part-by-part interpolation on the documented grid by {io['ref_err']:.3g} "
+                                                          f"(complex={c['complex']}, shape={c['arg']}, order={c['order']}, mode={c['mode']})")
+    if 'crop_err' in io and io['crop_err'] > 1e-12 * (1 + io['peak']): return f"explicit shape {c['arg']} is not the centre crop/pad of the default result ({io['crop_err']:.3g})"
+    return None
+
+def signature(c):
+    if c['kind'] == 'util': return f"util {c['shape']} s={c['scale']} shape={c['arg']} complex={c['complex']} order={c['order']} mode={c['mode']}"
+    return _signature_plane(c) + (f" after-rescale-by={c['warm']}" if c.get('warm') else '')
+def _signature_plane(c): return (f"{c['kind']} {c['shape']} seg={c['segments']} s={c['scale']} px={c['pxmode']} int={c['int_mask']} twice={c['twice']} "
                           f"a0={c['amp_scalar']} o0={c['opd_scalar']} {c.get('aperture', 'smooth')}")
 def nontrivial(c): return c['scale'] != 1.0 or c['segments'] > 1 or c['shape'][0] != c['shape'][1] or c['kind'] == 'refuse'
 def tags(c):
     t = [c['kind'], f"scale:{c['scale']}", f"segments:{min(c['segments'], 55)}{'+' if c['segments'] >= 55 else ''}", 'px:' + c['pxmode']]
     if c.get('extreme'): t.append('extreme:' + c['extreme'])
+    if c.get('warm'): t.append('history:earlier-rescale-same-output-shape-other-scale')
+    if c['kind'] == 'util':
+        t.append('util-shape:' + ('default' if c['arg'] is None else 'scalar' if len(c['arg']) == 1 else 'pair'))
+        t.append('util-complex' if c['complex'] else 'util-real')
     t.append('aperture:' + c.get('aperture', 'smooth'))
     if c['scale'] in DECIMAL_SCALES: t.append('non-dyadic-scale')
     sf_ = c['scale']; 
@@ -173,12 +290,18 @@ def _shares(a, b):
 
 def impl(c):
     lentil = vlib.import_lentil()
+    if c['kind'] == 'util': return _impl_util(c, lentil)
     P = _plane(c, lentil)
     before = _state(P)
     res = {}
     with warnings.catch_warnings():
         warnings.simplefilter('ignore')
         try:
+            if c.get('warm'):       # earlier call in the same process: other scale factor, same output shape; its result is discarded
+                P.rescale(c['warm'])
+                lentil.rescale(np.asarray(P.amplitude), scale=c['warm'], shape=None, mask=None, order=3, mode='nearest', unitary=False)
+                lentil.rescale(np.ones(c['shape']), c['warm'], mask=np.ones(c['shape']), order=1, mode='nearest', unitary=False)
+                if _state(P) != before: return {'exc': 'HistoryError', 'msg': 'the warm-up rescale modified the plane', 'untouched': False}
             if c['kind'] in ('resample', 'refuse'): Q = P.resample(c['new_px'])
             else: Q = P.rescale(c['scale'])
             if c['twice']:
@@ -264,6 +387,7 @@ def _eff_scale(c):
 def _fr(x): return Fr(x)
 def _rat(x): f = Fr(x); return [f.numerator, f.denominator]
 def requests(c, io):
+    if c['kind'] == 'util': return _requests_util(c, io)
     px2 = _px2(c)
     pj = None if px2 is None else [_rat(px2[0]), _rat(px2[1])]
     if c['kind'] == 'refuse':
@@ -276,6 +400,7 @@ def requests(c, io):
     return r
 
 def compare(c, io, mo):
+    if c['kind'] == 'util': return _compare_util(c, io, mo)
     if c['kind'] == 'refuse':
         g = mo[0]
         if g.get('ok'): return 'model accepts the resample'
@@ -311,6 +436,7 @@ def compare(c, io, mo):
     return None
 
 def oracle(c, io):
+    if c['kind'] == 'util': return _oracle_util(c, io)
     if c['kind'] == 'refuse':
         want = 'ValueError' if c['pxmode'] == 'none' else 'NotImplementedError'
         if io.get('exc') != want: return f"resample of a plane with {c['pxmode']} pixel scale: {io.get('exc', 'accepted')}, expected {want}"
